@@ -4,7 +4,10 @@
 mod io;
 mod model;
 mod prng;
+mod serve;
 mod util;
+#[cfg(feature = "pm")]
+mod e4;
 
 #[cfg(not(feature = "stateless"))]
 mod e1;
@@ -103,6 +106,7 @@ fn main() {
         "run" => run_one(&args),
         "gen" => gen_one(&args),
         "selftest-model" => selftest_model(),
+        "serve" => serve::serve(),
         #[cfg(feature = "pm")]
         "transcript" => {
             let t = match util::guarded(|| e5::transcript(args.u64("seed", 1))) {
@@ -193,6 +197,8 @@ fn batch(args: &Args) -> i32 {
             let (next, stop, agg, known, base, engine, prop) = (&next, &stop, &agg, &known, &base, &engine, &prop);
             sc.spawn(move || {
                 let mut local = Agg::default();
+                #[cfg(feature = "pm")]
+                let mut e4_peers: Option<Vec<e4::Peer>> = None;
                 loop {
                     if stop.load(Ordering::Relaxed) {
                         break;
@@ -215,6 +221,8 @@ fn batch(args: &Args) -> i32 {
                         "e2" => run_e2(args, prop, run_seed, known, &mut local, want_logs),
                         #[cfg(feature = "pm")]
                         "e3" => run_e3(args, run_seed, &mut local, want_logs),
+                        #[cfg(feature = "pm")]
+                        "e4" => run_e4(args, run_seed, &dir, &mut local, &mut e4_peers, want_logs),
                         #[cfg(feature = "pm")]
                         "e5b" => run_e5b(args, prop, run_seed, &mut local, want_logs),
                         #[cfg(feature = "pm")]
@@ -484,6 +492,73 @@ fn run_e3(args: &Args, run_seed: u64, local: &mut Agg, want_logs: bool) {
 }
 
 #[cfg(feature = "pm")]
+fn e4_spawn(args: &Args, dir: &std::path::Path) -> Result<Vec<e4::Peer>, String> {
+    let _ = std::fs::create_dir_all(dir);
+    let mut peers = vec![e4::Peer::local("default")];
+    for spec in args.get("peers").unwrap_or("").split(',').filter(|x| !x.is_empty()) {
+        let (name, bin) = spec.split_once('=').ok_or("bad --peers")?;
+        peers.push(e4::Peer::spawn(name, bin, dir, &std::env::var("RAYON_NUM_THREADS").unwrap_or("1".into()))?);
+    }
+    Ok(peers)
+}
+
+#[cfg(feature = "pm")]
+fn run_e4(args: &Args, run_seed: u64, dir: &std::path::Path, local: &mut Agg, peers: &mut Option<Vec<e4::Peer>>, want_logs: bool) {
+    if peers.is_none() {
+        match e4_spawn(args, dir) {
+            Ok(mut p) => {
+                match e4::check_keys(&mut p) {
+                    Ok(c) => local.counters.merge(&c),
+                    Err((clause, detail)) => {
+                        local.violations.push(json!({
+                            "violation": {"property":"C17","clause":clause,"detail":detail,"class":format!("C17|keys|{clause}")},
+                            "trace": {"engine":"e4","property":"C17","seed":0,"peers":p.iter().map(|x| x.name.clone()).collect::<Vec<_>>(),"members":[],"events":[],"keys_only":true},
+                            "original_steps": 0, "shrink_runs": 0, "seed": "keys",
+                        }));
+                    }
+                }
+                *peers = Some(p);
+            }
+            Err(e) => {
+                local.harness_errors.push(format!("cannot start peers: {e}"));
+                return;
+            }
+        }
+    }
+    let ps = peers.as_mut().unwrap();
+    let names: Vec<String> = ps.iter().map(|p| p.name.clone()).collect();
+    let trace = e4::generate(run_seed, &names);
+    let o = e4::run(&trace, ps);
+    local.runs += 1;
+    local.steps += trace.events.len() as u64;
+    local.counters.merge(&o.counters);
+    let d = trace.digest();
+    local.traces.insert(d);
+    if o.counters.0.get("proofs_generated").copied().unwrap_or(0) > 0 {
+        local.nontrivial.insert(d);
+    }
+    if want_logs {
+        local.logs.push((run_seed, o.log));
+    }
+    if local.samples.len() < 1 {
+        local.samples.push(trace.to_json());
+    }
+    if let Some(e) = o.harness_error {
+        local.harness_errors.push(format!("seed {run_seed}: {e}"));
+    }
+    if let Some((clause, detail, _ei)) = o.violation {
+        let (min, used) = e4::shrink(&trace, &clause, ps, args.u64("shrink-budget", 12) as usize);
+        local.violations.push(json!({
+            "violation": {"property":"C17","clause":clause,"detail":detail,"class":format!("C17|e4|{clause}")},
+            "trace": min.to_json(),
+            "original_steps": trace.events.len(),
+            "shrink_runs": used,
+            "seed": run_seed.to_string(),
+        }));
+    }
+}
+
+#[cfg(feature = "pm")]
 static FIRST_BATON_RUN: AtomicBool = AtomicBool::new(true);
 
 #[cfg(feature = "pm")]
@@ -635,6 +710,29 @@ fn run_one(args: &Args) -> i32 {
                 "log": ctx.log.0.to_string(),
                 "counters": ctx.counters.to_json(),
             })
+        }
+        #[cfg(feature = "pm")]
+        "e4" => {
+            match e4_spawn(args, &base) {
+                Err(e) => json!({"harness_error": e}),
+                Ok(mut ps) => {
+                    if tv["keys_only"] == true {
+                        match e4::check_keys(&mut ps) {
+                            Ok(_) => json!({"violation": Value::Null}),
+                            Err((clause, detail)) => json!({"violation": {"property":"C17","clause":clause,"detail":detail,"class":format!("C17|keys|{clause}")}}),
+                        }
+                    } else {
+                        let t = e4::Trace::from_json(&tv).expect("e4 trace");
+                        let o = e4::run(&t, &mut ps);
+                        json!({
+                            "violation": o.violation.map(|(c, d, _)| json!({"property":"C17","clause":c,"detail":d,"class":format!("C17|e4|{c}")})),
+                            "harness_error": o.harness_error,
+                            "log": o.log.to_string(),
+                            "counters": o.counters.to_json(),
+                        })
+                    }
+                }
+            }
         }
         #[cfg(feature = "pm")]
         "e5b" => {
